@@ -265,7 +265,7 @@ CHECKS["C07"] = dict(
     technique="SMT (z3) over a symbolic execution of the real inotify pipeline (Inotify.__init__/read_events, "
               "InotifyBuffer.run/_group_events, DelayedQueue, InotifyEmitter.queue_events, generate_sub_*_events) on "
               "symbolic operations over a file-system/kernel model",
-    level=("model_checking", 'For every valid operation, including operations on entries outside the watched tree, no code of the pipeline raises, and a probe made afterwards in an existing directory is still reported; histories of two operations only in directed form (first operation fixed: a directory moved out; thorough adds a directory renamed or moved in). One session injects a transient failure (ENOENT / ENOTDIR / EACCES) into the first or second inotify_add_watch call made after start-up. Root deletion is not covered.', "DESIGN.md section 9"),
+    level=("model_checking", 'For every valid operation, including operations on entries outside the watched tree, no code of the pipeline raises, and a probe made afterwards in an existing directory is still reported; histories of two operations only in directed form (first operation fixed: a directory moved out; thorough adds a directory renamed or moved in). One session injects a transient failure (ENOENT / ENOTDIR / EACCES) into the first, second or third inotify_add_watch call made after start-up; one directed history (mkdir c; mkdir c/d; create c/d/f back to back, no pacing) does the same while a new directory tree is announced. Root deletion is not covered.', "DESIGN.md section 9"),
     note='Trusted: the file-system + inotify kernel model vf/fsmodel.py (inotify(7) contract, not re-validated against the real kernel at run time), sequential threading models, the replay semantics of DESIGN.md 9.0, VM semantics (every counterexample is replayed natively against the real library code over the same model), z3. Quick tier: every single operation from the operand pools on a fixed initial tree; plus directed two-operation histories (first operation fixed - mkdir, or a directory moved out of the tree - second operation symbolic); thorough: more single-operation configurations and more directed histories (directory renamed, directory moved in). Fully symbolic two-operation histories did not finish building and are not claimed.',
 )
 CHECKS["C19"] = dict(
